@@ -623,7 +623,11 @@ def run(ctx):
         "domain guard of C16_never_overpay: payment values and attempt amounts < 2^63 msat "
         "(uint64 sums cannot wrap); outside it C16_overpay_beyond_uint64_refuted holds",
         "C16_refinement_partial hypothesis: attempt ids globally fresh at registration and "
-        "settle/fail addressed through the owning payment hash (what the router does)"])
+        "settle/fail addressed through the owning payment hash (what the router does)",
+        "concurrent histories: a 'linearisable' verdict is the Coq kernel's (lin_witness_ok by "
+        "vm_compute on the witness order, sound by C16_lin_checker_sound); a 'not linearisable' "
+        "verdict additionally trusts Coq extraction (ExtrOcamlBasic) + ocaml/c16_lin.ml (WGL "
+        "search), cross-checked against vm_compute on the sequential and on perturbed histories"])
     if ctx.replay:
         # --replay of a recorded concurrent history (a non-linearisable history or a
         # predicate failure): the schedule cannot be re-enacted, the recorded history IS
@@ -811,7 +815,10 @@ def run(ctx):
     ctx.assumptions += [
         "bbolt / sqlite transactions are atomic (one model step per API call)",
         "amounts < 2^63 msat for the never-overpay theorem",
-        "concurrent callers are linearised by the database transaction (RegisterAttempt's "
-        "documented per-hash serialisation requirement is assumed, not checked)"]
+        "concurrent callers: every recorded 2-4 goroutine history of either real store must be "
+        "linearisable to the model (checked on sampled schedules: Go scheduler / bbolt batcher / "
+        "sqlite lock with barrier start and jitter; not an enumeration of schedules)",
+        "a sqlite serialization/busy/retries-exceeded error is an operation that did not happen "
+        "(sqldb.ExecuteSQLTransactionWithRetry rolls back before returning it)"]
     if ctx.thorough:
         ctx.coqchk(["LV.Payments.Props"])
